@@ -272,9 +272,11 @@ impl DiameterClient {
         let writer = Arc::new(Mutex::new(writer));
         self.writer = Some(writer);
         let msg_caches = Arc::clone(&self.msg_caches);
+        self.closed = Arc::new(AtomicBool::new(false));
         ClientHandler {
             reader: Box::new(reader),
             msg_caches,
+            closed: Arc::clone(&self.closed),
         }
     }
 }
